@@ -1,6 +1,6 @@
 SPECIFICATION Spec
 CONSTANTS
-  Worlds <- MC_WorldsSmall
+  Worlds <- MC_WorldsKeys3
   Queries <- MC_Queries
   MaxFaults = 1
   FaultsOf <- MC_FaultsOf
